@@ -381,3 +381,112 @@ func ZZ_C03_symbolic() {
 func ZZ_C03_hybrid_T() {
 	run(2, false, true)
 }
+
+// ZZ_C03_par_binding: the challenge comes from a PUSHED authorization request; the continuation at the
+// authorization endpoint may carry its own code_challenge / code_challenge_method next to the request_uri.
+// The binding is the pushed one: the code is redeemed exactly with the verifier of the pushed challenge.
+func ZZ_C03_par_binding() {
+	plainOK := zz.Bool("cfg.plain")
+	wd := world.New(world.Options{
+		Tweak: func(cfg *fosite.Config) { cfg.EnablePKCEPlainChallengeMethod = plainOK },
+		Extra: []compose.Factory{compose.PushedAuthorizeHandlerFactory},
+	})
+	push := url.Values{
+		"client_id": {"c1"}, "client_secret": {world.Secret1}, "response_type": {"code"}, "redirect_uri": {"https://c1.example/cb"},
+		"scope": {"offline photos"}, "state": {"state-0123456789"},
+		"code_challenge": {s256(v0)}, "code_challenge_method": {"S256"},
+	}
+	par, err := wd.Provider.NewPushedAuthorizeRequest(wd.Ctx, world.Post(push))
+	zz.Assume(err == nil)
+	presp, err := wd.Provider.NewPushedAuthorizeResponse(wd.Ctx, par, world.NewSession("peter"))
+	zz.Assume(err == nil)
+	front := url.Values{"client_id": {"c1"}, "request_uri": {presp.GetRequestURI()}}
+	switch zz.Choice("front-channel", 3) {
+	case 1: // another S256 challenge next to the request_uri
+		front.Set("code_challenge", s256(vOther))
+		front.Set("code_challenge_method", "S256")
+		zz.Cover("par:front-channel-challenge", true)
+	case 2: // a downgrade attempt: the pushed challenge string as a plain challenge
+		front.Set("code_challenge", vOther)
+		front.Set("code_challenge_method", "plain")
+		zz.Cover("par:front-channel-plain-challenge", true)
+	}
+	ar, err := wd.Provider.NewAuthorizeRequest(wd.Ctx, world.Get(front))
+	zz.Assume(err == nil)
+	ar.GrantScope("offline")
+	ar.GrantScope("photos")
+	resp, err := wd.Provider.NewAuthorizeResponse(wd.Ctx, ar, world.NewSession("peter"))
+	zz.Assume(err == nil)
+	code := resp.GetCode()
+	zz.Assume(code != "")
+	tf := url.Values{"grant_type": {"authorization_code"}, "code": {code}, "redirect_uri": {"https://c1.example/cb"}}
+	// (concrete verifiers: which of the two challenges binds is the question here; symbolic verifiers against
+	// one challenge are the business of ZZ_C03_symbolic)
+	verifier := []string{"", v0, vOther}[zz.Choice("verifier", 3)]
+	if verifier != "" || zz.Choice("empty-parameter", 2) == 1 {
+		tf.Set("code_verifier", verifier)
+	}
+	_, err = wd.TokenAs("c1", world.Secret1, tf)
+	zz.Observe("attempt.err", world.ErrName(err))
+	if err == nil {
+		zz.Cover("par:redeemed", true)
+		zz.Assert(verifier == v0, "a code from a pushed request is redeemed only with the verifier of the PUSHED challenge")
+	} else {
+		zz.Cover("par:refused", true)
+		zz.Assert(verifier != v0, "the verifier of the pushed challenge is accepted")
+	}
+}
+
+// ZZ_C03_hybrid_revocation: OpenID Connect hybrid flow "code token" with an S256 challenge; before the code
+// is redeemed the access token handed out by the authorization endpoint is revoked (RFC 7009). The code stays
+// bound to its challenge: without the right verifier nothing is issued.
+func ZZ_C03_hybrid_revocation() {
+	signer := world.NewModelSigner()
+	wd := world.New(world.Options{
+		TweakStrategy: func(cs *compose.CommonStrategy, cfg *fosite.Config) {
+			cs.OpenIDConnectTokenStrategy = &openid.DefaultStrategy{Signer: signer, Config: cfg}
+			cs.Signer = signer
+		},
+		// every handler that issues a code precedes the PKCE handler (the order of ComposeAllEnabled)
+		Factories: []compose.Factory{
+			compose.OAuth2AuthorizeExplicitFactory,
+			compose.OAuth2AuthorizeImplicitFactory,
+			compose.OAuth2RefreshTokenGrantFactory,
+			compose.OpenIDConnectHybridFactory,
+			compose.OAuth2TokenIntrospectionFactory,
+			compose.OAuth2TokenRevocationFactory,
+			compose.OAuth2PKCEFactory,
+		},
+	})
+	form := url.Values{
+		"client_id": {"c1"}, "response_type": {"code token"}, "redirect_uri": {"https://c1.example/cb"},
+		"scope": {"openid offline photos"}, "state": {"state-0123456789"}, "nonce": {"nonce-0123456789"},
+		"code_challenge": {s256(v0)}, "code_challenge_method": {"S256"},
+	}
+	ar, err := wd.Provider.NewAuthorizeRequest(wd.Ctx, world.Get(form))
+	zz.Assume(err == nil)
+	for _, sc := range ar.GetRequestedScopes() {
+		ar.GrantScope(sc)
+	}
+	resp, err := wd.Provider.NewAuthorizeResponse(wd.Ctx, ar, world.NewOIDCSession("peter"))
+	zz.Assume(err == nil)
+	code, at0 := resp.GetCode(), resp.GetParameters().Get("access_token")
+	zz.Assume(code != "" && at0 != "")
+	if zz.Choice("revoked-first", 2) == 1 {
+		zz.Assume(wd.Revoke("c1", "", at0, "access_token") == nil)
+		zz.Cover("hybrid:front-channel-token-revoked-before-redemption", true)
+	}
+	tf := url.Values{"grant_type": {"authorization_code"}, "code": {code}, "redirect_uri": {"https://c1.example/cb"}}
+	verifier := []string{"", v0, vOther}[zz.Choice("verifier", 3)]
+	if verifier != "" {
+		tf.Set("code_verifier", verifier)
+	}
+	_, err = wd.TokenAs("c1", world.Secret1, tf)
+	zz.Observe("attempt.err", world.ErrName(err))
+	if err == nil {
+		zz.Cover("hybrid:redeemed", true)
+		zz.Assert(verifier == v0, "a hybrid code bound to a challenge is redeemed only with its verifier, also after a revocation")
+	} else {
+		zz.Assert(verifier != v0, "the right verifier is accepted")
+	}
+}
